@@ -5,6 +5,9 @@ package main
 //	EN <key> <v1> <v2>   DeepEqual where `n` stands for a nil *T on EITHER side (nil receivers)
 //	EI <key> <v>         x.DeepEqual(x): the same pointer
 //	EA <key> <v>         x.DeepEqual(y) with y := new(T); *y = *x (a shallow copy: every pointer/slice/map shared)
+//	ES <key> <v1> <v2>   x.DeepEqual(y) after making every struct-typed ELEMENT of a list / set / map (base-typed keys) of y
+//	                     the very pointer of x's element at the same index / key, whenever both are non-nil and their
+//	                     descriptions (the op's tokens) are identical: values that ALIAS sub-objects
 const driverOps = `package main
 
 import "reflect"
@@ -21,7 +24,97 @@ func c18call(e *entry, a, b reflect.Value) string {
 	return "false"
 }
 
+func c18same(a, b *value) bool {
+	if a.k != b.k || a.b != b.b || a.i != b.i || a.d != b.d || string(a.x) != string(b.x) || len(a.e) != len(b.e) {
+		return false
+	}
+	for i := range a.e {
+		if !c18same(a.e[i], b.e[i]) {
+			return false
+		}
+	}
+	return true
+}
+
+func c18deref(v reflect.Value) reflect.Value {
+	for v.Kind() == reflect.Ptr || v.Kind() == reflect.Interface {
+		if v.IsNil() {
+			return reflect.Value{}
+		}
+		v = v.Elem()
+	}
+	return v
+}
+
+// c18share walks the two descriptions and the two objects in lockstep and shares equal struct elements.
+func c18share(e *entry, rt *rtype, va, vb *value, xa, xb reflect.Value) {
+	if va.k == 'n' || vb.k == 'n' {
+		return
+	}
+	xa, xb = c18deref(xa), c18deref(xb)
+	if !xa.IsValid() || !xb.IsValid() {
+		return
+	}
+	shareable := func(et *rtype, da, db *value, pa, pb reflect.Value) bool {
+		return et.k == 'S' && pa.Kind() == reflect.Ptr && pb.Kind() == reflect.Ptr && !pa.IsNil() && !pb.IsNil() && da.k != 'n' && c18same(da, db)
+	}
+	switch rt.k {
+	case 'S':
+		st, idx := e.structOf(xa.Type(), rt.sidx)
+		for i, f := range st.fields {
+			fi, ok := idx[f.id]
+			if !ok || i >= len(va.e) || i >= len(vb.e) {
+				continue
+			}
+			c18share(e, f.typ, va.e[i], vb.e[i], xa.Field(fi), xb.Field(fi))
+		}
+	case 'L', 'T':
+		for i := 0; i < xa.Len() && i < xb.Len() && i < len(va.e) && i < len(vb.e); i++ {
+			if shareable(rt.elem, va.e[i], vb.e[i], xa.Index(i), xb.Index(i)) {
+				xb.Index(i).Set(xa.Index(i))
+			} else {
+				c18share(e, rt.elem, va.e[i], vb.e[i], xa.Index(i), xb.Index(i))
+			}
+		}
+	case 'M':
+		if rt.key.k == 'S' {
+			return
+		}
+		for p := 0; p+1 < len(va.e); p += 2 {
+			k := e.build(rt.key, xa.Type().Key(), va.e[p])
+			ea, eb := xa.MapIndex(k), xb.MapIndex(k)
+			if !ea.IsValid() || !eb.IsValid() {
+				continue
+			}
+			q := -1
+			for j := 0; j+1 < len(vb.e); j += 2 {
+				if e.build(rt.key, xa.Type().Key(), vb.e[j]).Interface() == k.Interface() {
+					q = j
+					break
+				}
+			}
+			if q < 0 {
+				continue
+			}
+			if shareable(rt.elem, va.e[p+1], vb.e[q+1], ea, eb) {
+				xb.SetMapIndex(k, ea)
+			} else if rt.elem.k != 'S' || (ea.Kind() == reflect.Ptr) {
+				// map values are not addressable: share inside pointer / slice / map values (reached by reference)
+				c18share(e, rt.elem, va.e[p+1], vb.e[q+1], ea, eb)
+			}
+		}
+	}
+}
+
 func init() {
+	extraOps["ES"] = func(args []string) string {
+		e := lookup(args[0])
+		v1, rest := parseValue(args[1:])
+		v2, _ := parseValue(rest)
+		x, y := e.object(v1), e.object(v2)
+		c18share(e, &rtype{k: 'S', sidx: e.sidx}, v1, v2, x, y)
+		return c18call(e, x, y)
+	}
 	extraOps["EN"] = func(args []string) string {
 		e := lookup(args[0])
 		v1, rest := parseValue(args[1:])
